@@ -30,12 +30,12 @@ pub open spec fn clip8(i: int) -> int { if i < 640 { 0 } else if i - 640 > 255 {
 ), dict(
     id="K2",
     title="Normalizer16::clip / Normalizer32::clip: clamp(v >> precision) and table access in bounds",
-    assumptions=["Normalizer16::clip is an unsafe fn: its contract has the precondition -640 <= (v >> precision) <= 639 (table domain); "
-                 "whether callers establish it is K7's obligation"],
+    assumptions=["Normalizer16::clip is total for every i32 accumulator (precondition: precision <= 31, the shift amount); "
+                 "on the pinned tree it required -640 <= (v >> precision) <= 639 and read outside the table otherwise - repaired (fix: commit)"],
     kani=dict(
         functions=[dict(file=F, fn="clip", within=r"impl Normalizer16"), dict(file=F, fn="clip", within=r"impl Normalizer32")],
         attrs=[dict(file=F, fn="clip", within=r"impl Normalizer16", lines=[
-            "#[cfg_attr(kani, kani::requires(self.precision <= 31 && (v >> self.precision) >= -640 && (v >> self.precision) <= 639))]",
+            "#[cfg_attr(kani, kani::requires(self.precision <= 31))]",
             "#[cfg_attr(kani, kani::ensures(|r: &u8| *r as i32 == (old(v >> self.precision)).clamp(0, 255)))]",
         ])],
         modules=[dict(file=F, name="fv_k2", code="""
@@ -67,7 +67,7 @@ pub open spec fn clip8(i: int) -> int { if i < 640 { 0 } else if i - 640 > 255 {
 """)],
         harnesses=[
             dict(name="k2_clip16_contract", kind="complete", timeout=300,
-                 claim="Normalizer16::clip meets its contract: within the table domain the result is clamp(v>>p, 0, 255) and the unchecked read is in bounds"),
+                 claim="Normalizer16::clip meets its contract for EVERY i32 accumulator: result == clamp(v>>p, 0, 255), the unchecked table read is in bounds"),
             dict(name="k2_clip_table_static", kind="complete", timeout=300,
                  claim="static CLIP8_LOOKUPS[i] == clamp(i-640, 0, 255) for every i < 1280 (twin of K1 on the evaluated static)"),
             dict(name="k3_clip32_total", kind="complete", covers=1, timeout=300,
